@@ -546,3 +546,113 @@ def no_return_inside_loops(qualname):
                     bad.append(n.lineno)
     has_top = any(isinstance(s, ast.Return) for s in fi.body())
     return [_ob(qualname, "returns-after-the-loop", not bad and has_top, bad[0] if bad else fi.lineno, "return statements inside loops at lines %s; top-level return present: %s" % (sorted(set(bad)), has_top))]
+
+
+def loop_variables_not_read_after_loop(qualname):
+    """a per-item check stays per item: no statement after a `for` loop (in the same block) reads that loop's target variable, unless
+    it is assigned again first.  (Reading the stale variable of a finished loop applies a check to the LAST item only.)"""
+    fi = source.lookup(qualname)
+    out = []
+    n = 0
+
+    def targets(t):
+        return [x.id for x in ast.walk(t) if isinstance(x, ast.Name)]
+
+    def scan(stmts):
+        nonlocal n
+        for i, st in enumerate(stmts):
+            if isinstance(st, ast.For):
+                n += 1
+                for var in targets(st.target):
+                    # later statements of the same block, in order, until the variable is rebound
+                    for later in stmts[i + 1:]:
+                        rebinds = any(isinstance(x, ast.Name) and x.id == var and isinstance(x.ctx, ast.Store) for x in ast.walk(later))
+                        reads = [x for x in ast.walk(later) if isinstance(x, ast.Name) and x.id == var and isinstance(x.ctx, ast.Load)]
+                        if reads and not (isinstance(later, (ast.For, ast.comprehension)) and var in targets(getattr(later, "target", ast.Name(id="", ctx=ast.Load())))):
+                            # a read that comes before any rebinding inside `later`
+                            first_store = min([x.lineno for x in ast.walk(later) if isinstance(x, ast.Name) and x.id == var and isinstance(x.ctx, ast.Store)] or [10 ** 9])
+                            stale = [x for x in reads if x.lineno < first_store or (x.lineno == first_store and not rebinds)]
+                            if stale:
+                                out.append(_ob(qualname, "loop-variable-read-after-its-loop:%s@L%d" % (var, stale[0].lineno), False, stale[0].lineno,
+                                               "`%s` is the target of the loop at line %d and is read at line %d after the loop has finished" % (var, st.lineno, stale[0].lineno)))
+                                break
+                        if rebinds:
+                            break
+            for blk in ("body", "orelse", "finalbody", "handlers"):
+                sub = getattr(st, blk, None)
+                if isinstance(sub, list):
+                    if blk == "handlers":
+                        for h in sub:
+                            scan(h.body)
+                    else:
+                        scan(sub)
+
+    scan(fi.body())
+    out.append(_ob(qualname, "per-item-checks-stay-inside-their-loops:%d loops" % n, True, None, "%d for-loops examined" % n))
+    return out
+
+
+_DICT_ATTRS = set(dir(dict)) | {"sort", "sorted", "rename", "insert", "make", "findkeys", "copy", "enumkeys", "enumvals", "enumitems", "append", "promote", "valind", "filter", "filtervals", "reversed", "reverse", "export", "to_OD", "makefrom", "map", "disp", "dict_keys", "findbykey", "findbyval", "filterkeys", "enumvalues", "sortkeys"}
+_LIST_ATTRS = set(dir(list))
+
+
+def no_attribute_of_plain_container(qualname):
+    """a name whose most recent binding (in source order) is a fresh dict / odict / list is not asked for an attribute those containers
+    do not have (e.g. `ts = sc.odict() ... ts.units` in an error message: AttributeError instead of the intended error)"""
+    fi = source.lookup(qualname)
+    binds = {}  # name -> list of (line, kind)
+
+    def add(name, line, kind):
+        binds.setdefault(name, []).append((line, kind))
+
+    for s in ast.walk(fi.node):
+        if isinstance(s, ast.Assign):
+            v = s.value
+            k = "other"
+            if isinstance(v, ast.Dict) or (isinstance(v, ast.Call) and ast.unparse(v.func) in ("dict", "sc.odict", "odict", "OrderedDict") and not v.args and not v.keywords):
+                k = "dict"
+            elif isinstance(v, ast.List) or (isinstance(v, ast.Call) and ast.unparse(v.func) == "list" and not v.args):
+                k = "list"
+            for t in s.targets:
+                if isinstance(t, ast.Name):
+                    add(t.id, s.lineno, k)
+                else:
+                    for x in ast.walk(t):
+                        if isinstance(x, ast.Name) and isinstance(x.ctx, ast.Store):
+                            add(x.id, s.lineno, "other")
+        elif isinstance(s, (ast.For, ast.comprehension)):
+            for x in ast.walk(s.target):
+                if isinstance(x, ast.Name):
+                    add(x.id, getattr(s, "lineno", getattr(s.target, "lineno", 0)), "other")
+        elif isinstance(s, (ast.AugAssign, ast.AnnAssign)) and isinstance(s.target, ast.Name):
+            add(s.target.id, s.lineno, "other")
+        elif isinstance(s, ast.arg):
+            add(s.arg, fi.lineno, "other")
+        elif isinstance(s, ast.With):
+            for it_ in s.items:
+                if it_.optional_vars is not None:
+                    for x in ast.walk(it_.optional_vars):
+                        if isinstance(x, ast.Name):
+                            add(x.id, s.lineno, "other")
+        elif isinstance(s, ast.ExceptHandler) and s.name:
+            add(s.name, s.lineno, "other")
+        elif isinstance(s, ast.NamedExpr) and isinstance(s.target, ast.Name):
+            add(s.target.id, s.lineno, "other")
+    out = []
+    n = 0
+    for a in ast.walk(fi.node):
+        if isinstance(a, ast.Attribute) and isinstance(a.value, ast.Name) and isinstance(a.ctx, ast.Load):
+            prior = [b for b in binds.get(a.value.id, []) if b[0] < a.lineno]
+            if not prior:
+                continue
+            line, kind = max(prior)
+            if kind == "dict":
+                n += 1
+                if a.attr not in _DICT_ATTRS:
+                    out.append(_ob(qualname, "attribute-of-plain-dict:%s.%s@L%d" % (a.value.id, a.attr, a.lineno), False, a.lineno, "`%s` was bound to a fresh dict / odict at line %d; `.%s` raises AttributeError" % (a.value.id, line, a.attr)))
+            elif kind == "list":
+                n += 1
+                if a.attr not in _LIST_ATTRS:
+                    out.append(_ob(qualname, "attribute-of-plain-list:%s.%s@L%d" % (a.value.id, a.attr, a.lineno), False, a.lineno, "`%s` was bound to a fresh list at line %d; `.%s` raises AttributeError" % (a.value.id, line, a.attr)))
+    out.append(_ob(qualname, "container-attributes-exist:%d reads" % n, True, None, "%d attribute reads on names bound to fresh containers" % n))
+    return out
